@@ -109,6 +109,12 @@ func operatedLinks(c Cfg, m *Model) int {
 
 func explore(run *mc.Run, c Cfg, maxDepth int, levelCap int, workers []*worker, deadline time.Time, samples *mc.Samples, ambig map[string]int) (st cfgStats, nondet string) {
 	st.Cfg = c.String()
+	lastSample := ""
+	defer func() {
+		if lastSample != "" {
+			samples.Add(lastSample)
+		}
+	}()
 	alpha := alphabet(c.Kind, c.Slice)
 	st.AlphabetSize = len(alpha)
 	ps := c.parents()
@@ -240,7 +246,7 @@ func explore(run *mc.Run, c Cfg, maxDepth int, levelCap int, workers []*worker, 
 		st.Depth = depth
 		st.PerDepth = append(st.PerDepth, depthStat{depth, len(tasks), len(newFrontier)})
 		if len(newFrontier) > 0 {
-			samples.Add(fmt.Sprintf("%s depth %d: %s", c, depth, pathString(newFrontier[len(newFrontier)/2].path)))
+			lastSample = fmt.Sprintf("%s depth %d: %s", c, depth, pathString(newFrontier[len(newFrontier)/2].path))
 		}
 		frontier = newFrontier
 	}
@@ -326,8 +332,8 @@ func main() {
 		return
 	}
 	maxDepth := 4
-	budget := 150 * time.Second
-	levelCap := 40000
+	budget := 80 * time.Second
+	levelCap := 25000
 	if args.Tier == "thorough" {
 		maxDepth = 8
 		budget = 10 * time.Minute
@@ -351,7 +357,7 @@ func main() {
 	for i := range workers {
 		workers[i] = newWorker()
 	}
-	samples := &mc.Samples{N: 12}
+	samples := &mc.Samples{N: 24}
 	ambig := map[string]int{}
 
 	var all []cfgStats
